@@ -84,6 +84,17 @@ uint8_t* mc_guard_alloc(mc_guard_t* g, size_t n, int tail, size_t align_off);
 bool mc_guard_check(const mc_guard_t* g);   /* canaries intact? */
 void mc_guard_free(mc_guard_t* g);
 
+/* Reusable guard arena: a region of `cap` bytes fenced by PROT_NONE pages on
+ * both sides, mapped ONCE (page faults are very expensive in this sandbox, so
+ * per-case mmap must be avoided).  mc_arena_tail(n) returns a block whose end
+ * abuts the upper guard page; mc_arena_head(n) one whose start follows the
+ * lower guard page.  The 64 bytes on the unguarded side are canaries. */
+typedef struct { uint8_t* lo; uint8_t* hi; uint8_t* cur; size_t cur_n; int cur_tail; } mc_arena_t;
+void mc_arena_init(mc_arena_t* a, size_t cap);
+uint8_t* mc_arena_tail(mc_arena_t* a, size_t n);
+uint8_t* mc_arena_head(mc_arena_t* a, size_t n);
+bool mc_arena_check(const mc_arena_t* a);      /* canaries next to the last block intact? */
+
 /* Exact-size heap copy (ASan sees overreads) */
 void* mc_exact(const void* src, size_t n);
 
